@@ -130,7 +130,7 @@ class Unit:
     """One extraction job: a source file plus filters."""
 
     def __init__(self, src, main_only=False, file_re=None, name_re=None,
-                 view="release", extra=(), no_cfg=False, repo=None):
+                 view="release", extra=(), no_cfg=False, repo=None, class_re=None):
         self.src = src
         self.main_only = main_only
         self.file_re = file_re
@@ -141,6 +141,7 @@ class Unit:
         self.repo = repo or REPO
         self.root2 = None
         self.cache_id = None
+        self.class_re = class_re
 
     def key(self):
         h = hashlib.sha256()
@@ -150,6 +151,7 @@ class Unit:
         else:
             h.update(repr((self.src, self.main_only, self.file_re, self.name_re,
                            self.view, self.extra, self.no_cfg, self.repo)).encode())
+        h.update(repr(self.class_re).encode())
         h.update(tree_hash(self.repo).encode())
         try:
             h.update(str(os.path.getmtime(TOOL)).encode())
@@ -240,6 +242,8 @@ def _run_unit(u):
         cmd += ["--name-re", u.name_re]
     if u.no_cfg:
         cmd.append("--no-cfg")
+    if u.class_re:
+        cmd += ["--class-re", u.class_re]
     cmd.append(u.src)
     cmd.append("--")
     cmd += base_flags(u.view, u.repo, u.extra)
@@ -250,8 +254,14 @@ def _run_unit(u):
     return out
 
 
+# Whole-class explicit instantiation also instantiates members that the library deliberately
+# restricts to some argument types; exactly these diagnostics are tolerated (and counted):
+#  - Compile_Time_Check<false>: members restricted to integer / floating T
+#  - Interval::refine_existential on a Rational_Interval argument of another kind: a Box member
+#    never instantiated by the library for this ITV
 TOLERATED_DIAG = re.compile(r"Compile_Time_Check<false>|static_assert.*Compile_Time_Check|"
-                            r"implicit instantiation of undefined template 'Parma_Polyhedra_Library::Compile_Time_Check<false>'")
+                            r"implicit instantiation of undefined template 'Parma_Polyhedra_Library::Compile_Time_Check<false>'|"
+                            r"no matching member function for call to 'refine_existential'")
 
 
 class Facts:
